@@ -124,7 +124,7 @@ def cut_points(base, rng, tier, n_random):
     seen_kinds = {}
     for d in base.lines:
         c = seen_kinds.get(d['kind'], 0)
-        lim = 2 if d['kind'] == 'meas' else 1
+        lim = 1
         if d['kind'] == 'meas' and d['crit'] == 'total':
             c = seen_kinds.get('meas_total', 0)
             key = 'meas_total'
@@ -386,7 +386,7 @@ def run(ck):
             params = gen_params(ck.rng, i)
             rng = ck.rng
             acc, base = process(params, os.path.join(ck.scratch, 's%d' % i),
-                                lambda base: cut_points(base, rng, 'quick', 22), ck.model)
+                                lambda base: cut_points(base, rng, 'quick', 22 if i == 0 else 21), ck.model)
             acc.merge_into(ck)
             ck.count('scenario')
             ck.count('appended-bytes', len(base.appended))
